@@ -26,7 +26,7 @@ func TestC16(t *testing.T) {
 	r.Rule("(1) every program of exactly L steps over {get a session for partition 0/1/2, use the oldest/newest open handle, close the oldest/newest handle, advance the virtual clock past SessionCacheDuration, close the factory} (partitions introduced in order) is executed against a real factory with session cache size 1-2 and each eviction policy inside a synctest bubble; after every step synctest.Wait quiesces the asynchronous Remove goroutines and every still-held handle must still encrypt and decrypt; two consecutive gets of one partition must return the same *Session; after all handles and the factory are closed the env.close hook must have fired exactly once per session ever handed out and never while the harness's own holder count for that session was > 0 (sessions are mapped to their encryption through the SDK's [newSession] debug line). (2) stress with real goroutines and real millisecond expiry under the race detector, same logical oracle after quiescence. (3) get/use/close load against a factory built from the SDK's own parts with every harness monitor removed (the race detector then sees the SDK's synchronisation only). Distinct+non-trivial: programs in which at least two distinct underlying sessions were handed out (an eviction or expiry replaced one).")
 	r.Assume("holder counts are kept by the harness at the client boundary (GetSession return / Close call)")
 	L := ev.Pick(4, 6)
-	policies := ev.Pick([]string{"", "lru"}, []string{"", "lru", "lfu", "slru", "tinylfu"})
+	policies := ev.Pick([]string{"", "lru", "lfu"}, []string{"", "lru", "lfu", "slru", "tinylfu"})
 	failed := 0
 	for _, pol := range policies {
 		for _, size := range []int{1, 2} {
@@ -132,6 +132,7 @@ func TestC16(t *testing.T) {
 	r.Extra("program_length", L)
 	if !c16Hung.Load() {
 		largeCachePrograms(t, r)
+		manyHeldPrograms(t, r)
 		sessionCacheSchedules(r)
 		// (with a tear-down that never finishes the real-goroutine passes would only wait for their own time limit)
 		stressC16(t, r)
@@ -309,6 +310,51 @@ func largeCachePrograms(t *testing.T, r *ev.Run) {
 			})
 			if p != nil {
 				r.Violation("c16-panic-or-deadlock", fmt.Sprintf("large-cache program policy=%q size=%d: %v", pol, size, p), nil)
+			}
+		}
+	}
+}
+
+// manyHeldPrograms: far more sessions are held at the same time than the cache has room for ("no matter how many
+// other partitions are requested"): eight partitions are requested and kept, all of them are used, some partitions
+// are requested again, everything is used once more, then closed. Cache sizes 1-3, every policy.
+func manyHeldPrograms(t *testing.T, r *ev.Run) {
+	for _, pol := range []string{"", "lru", "lfu", "slru", "tinylfu"} {
+		for _, size := range []int{1, 2, 3} {
+			journal(fmt.Sprintf("C16 many-held program policy=%q size=%d", pol, size))
+			var prog []sessprog.Op
+			for i := 0; i < 8; i++ {
+				prog = append(prog, sessprog.Op{Kind: 'G', Arg: i})
+			}
+			for round := 0; round < 2; round++ {
+				for i := 0; i < 8; i++ {
+					// use every held handle: close-oldest and re-get rotates through them while keeping eight open
+					prog = append(prog, sessprog.Op{Kind: 'U', Arg: 0}, sessprog.Op{Kind: 'C', Arg: 0}, sessprog.Op{Kind: 'G', Arg: (i + round) % 8}, sessprog.Op{Kind: 'U', Arg: 1})
+				}
+				prog = append(prog, sessprog.Op{Kind: 'G', Arg: 20 + round}, sessprog.Op{Kind: 'G', Arg: 30 + round})
+			}
+			for i := 0; i < 12; i++ {
+				prog = append(prog, sessprog.Op{Kind: 'U', Arg: 0}, sessprog.Op{Kind: 'C', Arg: 0})
+			}
+			prog = append(prog, sessprog.Op{Kind: 'F'})
+			p := inBubbleC16(t, r, func() {
+				w := world.New("memguard")
+				defer w.Close()
+				time.Sleep(19 * time.Second)
+				sig, detail, st := sessprog.RunProgram(w, pol, size, prog, time.Hour)
+				r.Eval(1)
+				r.Count("many_held_programs", 1)
+				if st[2] >= 2 {
+					r.Distinct(fmt.Sprintf("many-held|%s|%d", pol, size))
+				}
+				if strings.HasPrefix(sig, "INCONCLUSIVE:") {
+					r.Inconclusive(detail)
+				} else if sig != "" {
+					r.Violation(sig, detail, map[string]any{"engine": "conc/c16-many-held", "policy": pol, "size": size})
+				}
+			})
+			if p != nil {
+				r.Violation("c16-panic-or-deadlock", fmt.Sprintf("many-held program policy=%q size=%d: %v", pol, size, p), nil)
 			}
 		}
 	}
